@@ -3,8 +3,11 @@
 # (a stack overflow aborts the process and cannot be caught in-process). exit 0 clean, 1 report, 2 inconclusive
 ROOT="$(cd "$(dirname "$0")/.." && pwd)"; cd "$ROOT/harness" || exit 2
 export CARGO_NET_OFFLINE=true
-cargo build --offline --quiet --profile dbg0 2>/tmp/c05nest.build.err || { tail -5 /tmp/c05nest.build.err; echo "build failed"; exit 2; }
-out=$(./target/dbg0/mlv c05nest --out $ROOT/harness/target/c05nest.json 2>&1); rc=$?
+# development aid (tools/trymutant_alt.sh): build against a scratch copy of the repository
+tdir="$ROOT/harness/target"; extra=()
+if [ -n "${MLV_REPO_OVERRIDE:-}" ]; then tdir="${MLV_ALT_DIR:-/tmp/mlv-alt}/target"; extra=(--config "paths=[\"$MLV_REPO_OVERRIDE\"]"); export CARGO_TARGET_DIR="$tdir"; fi
+cargo build --offline --quiet --profile dbg0 "${extra[@]}" 2>/tmp/c05nest.build.err || { tail -5 /tmp/c05nest.build.err; echo "build failed"; exit 2; }
+out=$("$tdir/dbg0/mlv" c05nest --out "$tdir/c05nest.json" 2>&1); rc=$?
 echo "$out" | tail -4
 if [ $rc -ge 128 ] || echo "$out" | grep -q "overflowed its stack"; then echo "REPORT: decoder aborted on nested bencode (exit $rc)"; exit 1; fi
 [ $rc -eq 0 ] || { echo "probe exit $rc"; exit 2; }
